@@ -105,6 +105,8 @@ def build(forest: list[dict[str, Any]], rng: random.Random) -> list[dict[str, An
                 b["logger"] = f"lg.{ti}.{i}"
             if tree["traces"][i]:
                 b["trace_id"] = f"trace-{ti}-{i}" if (ti + i) % 3 else f"tr%s-{ti}-{i}"
+            elif (ti + 2 * i + len(tree["parents"])) % 4 == 0:
+                b["trace_id"] = ""  # an empty id is no id: fresh one for an outermost scope, the enclosing one otherwise
             return b
 
         prog.append(node(0))
